@@ -258,6 +258,11 @@ func (q *PathQ) FromAfter(starts []ssa.Instruction) *Witness {
 	return q.search(ps, starts)
 }
 
+// FromAfterPos searches from the first instruction of block b.
+func (q *PathQ) FromAfterPos(b *ssa.BasicBlock) *Witness {
+	return q.search([]bpos{{b, 0}}, nil)
+}
+
 // Reachable lists every instruction of Fn reachable from entry under the cuts (Avoid respected).
 func (q *PathQ) ReachableInstrs() map[ssa.Instruction]bool {
 	out := map[ssa.Instruction]bool{}
@@ -523,6 +528,11 @@ func BackSlice(v ssa.Value) *Slice {
 			for _, e := range x.Edges {
 				visit(e)
 			}
+		case *ssa.Alloc:
+			// contents written through derived addresses (variadic argument arrays, struct literals)
+			for _, st := range storesInto(x) {
+				visit(st.Val)
+			}
 		case ssa.Instruction:
 			for _, op := range x.Operands(nil) {
 				if op != nil && *op != nil {
@@ -586,6 +596,65 @@ func storesTo(addr ssa.Value) []*ssa.Store {
 		}
 	}
 	return out
+}
+
+// storesInto: stores whose address is the alloc itself or a field/index address rooted at it.
+func storesInto(al *ssa.Alloc) []*ssa.Store {
+	fn := al.Parent()
+	var out []*ssa.Store
+	for _, b := range fn.Blocks {
+		for _, in := range b.Instrs {
+			st, ok := in.(*ssa.Store)
+			if !ok {
+				continue
+			}
+			a := st.Addr
+			for {
+				if a == ssa.Value(al) {
+					out = append(out, st)
+					break
+				}
+				if fa, ok := a.(*ssa.FieldAddr); ok {
+					a = fa.X
+					continue
+				}
+				if ia, ok := a.(*ssa.IndexAddr); ok {
+					a = ia.X
+					continue
+				}
+				break
+			}
+		}
+	}
+	return out
+}
+
+// retOperand resolves the idx-th result of a Return. In functions with defers the results are spilled
+// to cells (`*r0 = v; rundefers; t = *r0; return t`): the value stored last in the same block is used.
+func retOperand(ret *ssa.Return, idx int) ssa.Value {
+	v := ret.Results[idx]
+	u, ok := v.(*ssa.UnOp)
+	if !ok || u.Op != token.MUL {
+		return v
+	}
+	al, ok := u.X.(*ssa.Alloc)
+	if !ok {
+		return v
+	}
+	b := ret.Block()
+	// walk back through single-predecessor chains (the spill may sit in the predecessor block)
+	for hops := 0; hops < 4 && b != nil; hops++ {
+		for i := len(b.Instrs) - 1; i >= 0; i-- {
+			if st, ok := b.Instrs[i].(*ssa.Store); ok && st.Addr == ssa.Value(al) {
+				return st.Val
+			}
+		}
+		if len(b.Preds) != 1 {
+			break
+		}
+		b = b.Preds[0]
+	}
+	return v
 }
 
 // DependsOn reports whether v's backward slice contains a value satisfying pred.
